@@ -146,11 +146,16 @@ def deref(schema, root=None, depth=0):
     if isinstance(schema, dict):
         if "$ref" in schema:
             return deref(refmodel.resolve_pointer(root, schema["$ref"]), root, depth + 1)
-        return {
-            key: (copy.deepcopy(val) if key in ("const", "enum", "default") else
-                  deref(val, root, depth + 1))
-            for key, val in schema.items()
-        }
+        out = {}
+        for key, val in schema.items():
+            if key in ("const", "enum", "default"):
+                out[key] = copy.deepcopy(val)
+            elif key in ("properties", "patternProperties", "definitions", "dependencies") and isinstance(val, dict):
+                # by position: a member of a name map is a schema whatever it is called
+                out[key] = {name: deref(sub, root, depth + 1) for name, sub in val.items()}
+            else:
+                out[key] = deref(val, root, depth + 1)
+        return out
     if isinstance(schema, list):
         return [deref(sub, root, depth + 1) for sub in schema]
     return schema
